@@ -231,7 +231,12 @@ fn gen_history(rng: &mut Rng, max_steps: usize) -> (Vec<usize>, Vec<Step>) {
                 let mut changes = Vec::new();
                 let mut doc = open[f].clone().unwrap();
                 for _ in 0..rng.range(1, 3) {
-                    if rng.chance(1, 4) {
+                    // a text that applies or declares the imported function `wrap` is only ever replaced as a whole: a
+                    // ranged edit of it can leave the parameter of `wrap` under-constrained in its module or hand it an
+                    // ill-kinded argument, which is the trigger shape of the open finding c01-cross-module-instantiation
+                    // (any cast may fail; in the lenient language server the failing cast ends the process)
+                    let whole_only = doc.text().contains("wrap");
+                    if whole_only || rng.chance(1, 4) {
                         let t = (*rng.pick(&variants(f))).to_owned();
                         doc = ClientDoc::new(&t);
                         changes.push((None, t));
